@@ -521,7 +521,10 @@ class Update(object):
                 ip_hex = ip_hex[0:3]
             elif 8 < masklen <= 16:
                 ip_hex = ip_hex[0:2]
-            elif masklen <= 8:
+            elif 0 < masklen <= 8:
                 ip_hex = ip_hex[0:1]
+            elif masklen == 0:
+                # the default route: a length octet of 0 and no prefix octets (RFC 4271 4.3)
+                ip_hex = b''
             nlri_raw_hex += struct.pack('!B', masklen) + ip_hex
         return nlri_raw_hex
